@@ -433,6 +433,14 @@ fn create_file<P1: AsRef<Path>>(
         );
         return Ok(None);
     }
+    // Do not write through an already existing symbolic link: its target may
+    // be outside of the output directory
+    if fs::symlink_metadata(&extracted_path).is_ok_and(|md| md.file_type().is_symlink()) {
+        eprintln!(
+            " [!] Skipping file \"{fname}\" because a symbolic link already exists at its destination"
+        );
+        return Ok(None);
+    }
     Ok(Some((
         File::create(&extracted_path).map_err(|err| {
             eprintln!(" [!] Unable to create \"{fname}\" ({err:?})");
